@@ -164,7 +164,7 @@ CLAIMED.update({
          'exactly that element, otherwise IndexError, never a neighbour), ragged boolean masks and where() with symbolic truth values, rows, row '
          'slices/lists, (row, column) slices on a grid of positive/negative bounds and steps, paired fancy indices, iteration, flatten and '
          'the lengths/starts/shape/size/dtype attributes. Arrays whose elements are vectors (frames x features) are read through the same expressions. Deviations are classified by region of the '
-         'index grammar; three regions deviate on this tree and are recorded known findings (six others were repaired), any other deviation is a violation.',
+         'index grammar; two regions deviate on this tree and are recorded known findings (seven others were repaired), any other deviation is a violation.',
     note='Trusted: shim, z3. Slice bounds are enumerated (stated grid), not symbolic. Elements with more than one extra dimension / object elements are outside the claim.',
     ref='DESIGN.md section 8 C05'),
  'C06': dict(
@@ -174,7 +174,7 @@ CLAIMED.update({
          'model after the same operation - one step from an arbitrary state covers histories of any length. Binary operators between ragged arrays '
          'and with scalars are proved element-wise, structure-preserving, returning a new object that shares no storage, with operands unaltered; '
          'constructing by copy never aliases the caller data.',
-    note='Trusted: shim (NumPy view/copy semantics come from the real object ndarray underneath), z3. Two known findings recorded.',
+    note='Trusted: shim (NumPy view/copy semantics come from the real object ndarray underneath), z3. The defects found were repaired; no known finding is left for this property.',
     ref='DESIGN.md section 8 C06'),
 })
 CLAIMED.update({
